@@ -152,7 +152,10 @@ func (e *Engine) verify2(t *Target) {
 	fins := e.runPar(s, 1)
 	run.Paths = len(fins)
 	if len(fins) == 0 {
-		panic("no path reaches a return (contradictory precondition or every path panics)")
+		// every path ended in a failed obligation (whose negation was then assumed) or a panic: the failed
+		// obligations carry the verdict; if there are none this is a vacuity error
+		e.obs = append(e.obs, &Oblig{T: e.curT, Name: e.curFn + "#cover.return", Expect: "sat", Result: "unsat", Output: "no path reaches a return", run: run})
+		return
 	}
 	for i, fs := range fins {
 		if i == 0 || tier == "thorough" {
